@@ -104,8 +104,12 @@ class XmlTableGen:
         selfs = [bytes.fromhex(x) for x in (pub['xml'], pub['dtd'], pub['root']) if x] + list(nsmap.values())
         own = rng.choice(selfs) if selfs else b'hello'
 
+        bins = [r for r in tags if len(r) > 3 and r[3] & 1]
+
         def elt(depth, page):
             t = rng.choice(tags)
+            if bins and rng.random() < 0.2:
+                t = rng.choice(bins)          # rows with special handling are few: boost them
             name = bytes.fromhex(t[0])
             if rng.random() < 0.12:
                 name = rng.choice(lit_pool)
@@ -130,6 +134,11 @@ class XmlTableGen:
                     if (b' ' + nm + b'="') not in out:
                         out += b' ' + nm + b'="' + v.replace(b'&', b'&amp;').replace(b'"', b'&quot;').replace(b'<', b'&lt;') + b'"'
             kids = b''
+            if len(t) > 3 and t[3] & 1 and rng.random() < 0.8:
+                # binary-flagged element: base64 text of some bytes (white-space-only payloads included)
+                import base64 as _b64
+                payload = rng.choice([b'\r\n', b' ', b'\n', b'hello', b'\x00\x01\xff', bytes(rng.randrange(256) for _ in range(rng.randint(1, 9)))])
+                return out + b'>' + _b64.b64encode(payload) + b'</' + name + b'>'
             for _ in range(rng.choice([0, 1, 1, 2, 3]) if depth < 3 else 0):
                 if rng.random() < 0.5:
                     kids += elt(depth + 1, t[1])
@@ -151,3 +160,33 @@ class XmlTableGen:
                 echo = e1 + e1
         body += b'>' + echo + b''.join(elt(1, root_row[1]) for _ in range(rng.randint(0, n))) + b'</' + root + b'>'
         return head + body
+
+
+def transcode(x, enc):
+    """re-encode an UTF-8 XML document and declare the encoding; None when it cannot be done faithfully"""
+    try:
+        t = x.decode('utf-8')
+    except UnicodeDecodeError:
+        return None
+    if re.search(r'<\?xml[^>]*encoding=', t):
+        t2 = re.sub(r'(<\?xml[^>]*encoding=)["\'][^"\']*["\']', r'\1"%s"' % enc, t, count=1)
+    elif t.startswith('<?xml'):
+        t2 = re.sub(r'<\?xml([^>]*)\?>', r'<?xml\1 encoding="%s"?>' % enc, t, count=1)
+    else:
+        t2 = '<?xml version="1.0" encoding="%s"?>' % enc + t
+    try:
+        return t2.encode('utf-16') if enc == 'UTF-16' else t2.encode('latin-1' if enc == 'ISO-8859-1' else 'ascii')
+    except UnicodeEncodeError:
+        return None
+
+
+def as_utf8(x):
+    """the text of an XML source in UTF-8, whatever encoding it is in (best effort, for oracles that look for a string in it)"""
+    try:
+        if x[:2] in (b'\xff\xfe', b'\xfe\xff'):
+            return x.decode('utf-16').encode('utf-8')
+        if re.search(rb'<\?xml[^>]*encoding=["\']ISO-8859-1', x[:200], re.I):
+            return x.decode('latin-1').encode('utf-8')
+    except UnicodeError:
+        pass
+    return x
